@@ -3,6 +3,7 @@ package props
 import (
 	"errors"
 	"fmt"
+	"strings"
 
 	"github.com/freeconf/yang/fc"
 	"github.com/freeconf/yang/node"
@@ -22,8 +23,9 @@ func (c03) ID() string    { return "C03" }
 func (c03) Level() string { return "exploration" }
 func (c03) Rule() string {
 	return "generated schema (no choice/when) + target tree T + source S derived from T (all overlap classes) x strategy {upsert,insert,update} x " +
-		"entry point {root,container,list,entry} x direction {From,Into} x source implementation {reference store, JSON reader}; histories of 1..6 " +
-		"operations on one target. Oracle: executable model of the statement (dp.Apply) vs the target store read directly; error class via errors.Is. " +
+		"entry point {root,container,list,entry} x direction {From,Into} x source implementation {reference store, JSON reader, XML reader, nodeutil.Reflect / " +
+		"nodeutil.Node over Go maps} x target {reference store, nodeutil.Reflect and nodeutil.Node over Go maps, slices and reflect.StructOf structs}; histories " +
+		"of 1..6 operations on one target. Oracle: executable model of the statement (dp.Apply) vs the target read directly (DNode tree / package reflect); error class via errors.Is. " +
 		"A shape = (strategy, entry kind, direction, source impl, model outcome, overlap fingerprint); trivial = empty S on empty T"
 }
 func (c03) MinEvals(string) int { return 500 }
@@ -206,7 +208,21 @@ func (p c03) Run(c *core.Ctx, idx int) {
 			outcome = dp.ApplyList(s, st, sl, ml)
 		}
 		impl := "refstore"
-		if goSrc != nil {
+		useXML := !useJSON && goSrc == nil && ep.kind != "list" && r.Intn(4) == 0
+		if useXML {
+			impl = "xml"
+			rootName := s.Mod.Ident()
+			if ep.kind != "root" {
+				rootName = ep.path[len(ep.path)-1].Name
+			}
+			doc := dp.EncodeXML(s, rootName, srcTree, nil)
+			n, err := nodeutil.ReadXMLDoc(strings.NewReader(doc))
+			if err != nil {
+				c.Violate("harness/xml-source", "ReadXMLDoc of the reference encoding failed: %v\n%s", err, doc)
+				return
+			}
+			srcNode = n
+		} else if goSrc != nil {
 			impl = "go-" + goSrc.String()
 			srcNode = dp.NewGoStore(r, s, *goSrc, srcTree).Node()
 		} else if useJSON {
